@@ -24,7 +24,7 @@ def opt_class(name):
 
 
 def gen_space(rng, ndims=None, sizes=(1, 2, 3, 5, 8), kinds=("int", "float"), orders=("asc", "desc", "shuf"),
-              max_points=None):
+              max_points=None, dups=0.0):
     """-> (space dict name->np.array, meta). Values are dyadic so that integer scaling is exact."""
     nd = ndims if ndims is not None else rng.choice([1, 1, 2, 2, 3])
     space, meta = {}, []
@@ -46,6 +46,10 @@ def gen_space(rng, ndims=None, sizes=(1, 2, 3, 5, 8), kinds=("int", "float"), or
             vals = vals[::-1]
         elif order == "shuf":
             rng.shuffle(vals)
+        if dups and n >= 2 and rng.random() < dups:
+            # a dimension that holds the same value at two indices (np.logspace(...).astype(int), hand-written lists)
+            i, j = rng.sample(range(n), 2)
+            vals[j] = vals[i]
         arr = np.array(vals, dtype=(np.int64 if kind == "int" else np.float64))
         space["x%d" % d] = arr
         meta.append((kind, order, n))
